@@ -139,7 +139,7 @@ def tokens(a):
     """Token list with exactly the parentheses the operator table requires (Expr!Render)."""
     t = a["t"]
     if t == "num":
-        return [{"k": "num", "s": "", "v": a["v"], "chr": a.get("chr", 0)}]
+        return [dict({"k": "num", "s": "", "v": a["v"]}, **({"chr": 1} if a.get("chr") else {}))]
     if t == "big":
         return [{"k": "big", "s": "", "b": a["b"]}]
     if t == "sym":
